@@ -130,8 +130,11 @@ func (wg *WaitGroup) Wait(ctx context.Context) {
 
 	// need this to wake up any waiters in the case that the
 	// context has been canceled, to avoid having many
-	// theads/waiters blocking.
-	go func() { <-ctx.Done(); wg.cond.Broadcast() }()
+	// theads/waiters blocking. The broadcast must happen while
+	// holding the mutex: otherwise it can land between a waiter's
+	// check of ctx.Done() and its registration in cond.Wait(),
+	// and that waiter would never observe the cancellation.
+	go func() { <-ctx.Done(); wg.mu.Lock(); defer wg.mu.Unlock(); wg.cond.Broadcast() }()
 
 	for {
 		select {
